@@ -397,6 +397,47 @@ Proof.
   exact (pg_column_bits [] t c c' _ gc (pg_type_changed_exact [] c c' H H' K U A) G).
 Qed.
 
+(** 4h. Numeric defaults of MySQL columns (round 4).  equalIntValues: two literals that
+    strconv.ParseInt accepts (|v| <= MaxInt64) are compared exactly -- also above 2^53 ... *)
+Theorem C02_mysql_int_default_except :
+  forall x1 x2 f1 t1 f2 t2 v1 v2,
+  parse_int64 (to_lower (trim quote_space x1)) = Some v1 ->
+  parse_int64 (to_lower (trim quote_space x2)) = Some v2 ->
+  equal_int_values x1 x2 f1 t1 f2 t2 =
+  str_eqb (to_lower (trim quote_space x1)) (to_lower (trim quote_space x2))
+  || (Bool.eqb (fst v1) (fst v2) && N.eqb (snd v1) (snd v2)).
+Proof. exact equal_int_values_exact. Qed.
+
+(** ... but "two different integer defaults are reported" is FALSE above MaxInt64 (BIGINT UNSIGNED):
+    18446744073709551615 and 18446744073709551614 are both read through float64 and int64(f).
+    Reproduced on the Go code (known finding C02-mysql-unsigned-bigint-default-above-int64-unreported);
+    the projections in the witness are what strconv / the conversion give on the harness' platform. *)
+Theorem C02_mysql_uint_default_refuted :
+  exists x1 x2 f t, x1 <> x2 /\ digits_val 0 x1 <> None /\ digits_val 0 x2 <> None /\
+    equal_int_values x1 x2 f t f t = true.
+Proof.
+  exists w_u64_a, w_u64_b, w_u64_f, w_u64_t. split; [discriminate|]. split; [vm_compute; discriminate|].
+  split; [vm_compute; discriminate|]. exact w_u64_equal.
+Qed.
+
+(** equalFloatValues (FLOAT, DOUBLE and DECIMAL columns): equal texts, or equal float64 values ... *)
+Theorem C02_mysql_float_default_except :
+  forall x1 x2 f1 f2, f1 <> [] -> f2 <> [] ->
+  equal_float_values x1 x2 f1 f2 =
+  str_eqb (to_lower (trim quote_space x1)) (to_lower (trim quote_space x2)) || str_eqb f1 f2.
+Proof. exact equal_float_values_spec. Qed.
+
+(** ... which is the column's own view for DOUBLE, but "two different decimal defaults are reported"
+    is FALSE for DECIMAL columns: 1.0000000000000001 -> 1.0 in a decimal(60,25) column yields no
+    change (known finding C02-mysql-decimal-default-compared-as-float64). *)
+Theorem C02_mysql_decimal_default_refuted :
+  exists c c', c_class c = MY_DECIMAL /\ c_class c' = MY_DECIMAL /\ c_default c <> c_default c' /\
+               forall t, mysql_column_change t c c' = Some 0%N.
+Proof.
+  exists (w_dec_col w_dec_a), (w_dec_col w_dec_b). split; [reflexivity|]. split; [reflexivity|].
+  split; [discriminate|]. exact w_dec_unreported.
+Qed.
+
 (** 4g. When is the side condition of 2b met: a driver without FindGeneratedIndex (MySQL,
     PostgreSQL) finds no similar index in a table whose indexes are all named. *)
 Theorem C02_no_similar_index :
@@ -688,6 +729,10 @@ Example C02_ex_fixed_witnesses :
   (forall t, pg_column_change t (w_udt_col [99;105;116;101;120;116]%N) (w_udt_col [108;116;114;101;101]%N) = Some ChangeType) /\
   mysql_is_generated_index_name w_grp_from (w_fi s_fi2) = true.
 Proof. split; [exact w_bool_reported|]. split; [exact w_udt_reported|]. exact (proj2 w_functional_index). Qed.
+Example C02_ex_int_default_above_2_53 :
+  equal_int_values [57;48;48;55;49;57;57;50;53;52;55;52;48;57;57;50]%N [57;48;48;55;49;57;57;50;53;52;55;52;48;57;57;51]%N [] [] [] [] = false /\
+  equal_int_values [43;53]%N [39;53;39]%N [] [] [] [] = true.
+Proof. split; vm_compute; reflexivity. Qed.
 Example C02_ex_no_check : mysql_table_attr_diff_v x_v57 x_t x_t = None.
 Proof. vm_compute. reflexivity. Qed.
 
@@ -734,3 +779,7 @@ Print Assumptions C02_postgres_udt_type_noscope.
 Print Assumptions C02_postgres_udt_type_scope.
 Print Assumptions C02_mysql_functional_index.
 Print Assumptions C02_mysql_fill_idempotent.
+Print Assumptions C02_mysql_int_default_except.
+Print Assumptions C02_mysql_uint_default_refuted.
+Print Assumptions C02_mysql_float_default_except.
+Print Assumptions C02_mysql_decimal_default_refuted.
